@@ -214,6 +214,32 @@ def run(ctx):
         ctx.log(f"tie broken; oracle search on the implementation found a failing input: {found}")
         return C.finish(ctx)
     impl, model = C.differential(ctx, reqs, "hostile", oracle=oracle, shrink=False, equal=c07.equal)
+    # a consumer that is *reused*: one dr::Loader handed to the parser twice, the first parse ending anywhere (truncation at every
+    # instruction boundary and inside instructions), the second starting with every structural instruction. No model of a reused
+    # loader exists: judged on the implementation alone (never a panic).
+    g0 = instgen.Gen(TG, rnd)
+    mg0 = instgen.ModuleGen(g0, common.specclass())
+    hdr = instgen.header()
+    seconds = []
+    for nm, rt, rid, ops in (("Return", None, None, []), ("Label", None, 900, []), ("FunctionEnd", None, None, []), ("Unreachable", None, None, []),
+                             ("Function", 1, 901, [instgen.Op("w", g0.vix["FunctionControl"], 0), instgen.Op("w", g0.vix["IdRef"], 2)]),
+                             ("FunctionParameter", 1, 902, []), ("Nop", None, None, []), ("Capability", None, None, [instgen.Op("w", g0.vix["Capability"], 1)])):
+        seconds.append(instgen.to_bytes(hdr + instgen.Inst(g0.opv[nm], nm, rt, rid, ops).words()).hex())
+    reuse = []
+    for _ in range(4 if ctx.tier == "quick" else 40):
+        insts = mg0.module(size=0.6)
+        cut = len(hdr)
+        firsts = []
+        for _, i in insts:
+            cut += len(i.words())
+            firsts.append(instgen.to_bytes(instgen.module_words(insts)[:cut]).hex())
+            firsts.append(instgen.to_bytes(instgen.module_words(insts)[:cut])[:-3].hex())
+        for a in firsts:
+            for b in seconds:
+                reuse.append(f"loadtwice {a} {b}")
+    found_reuse = C.oracle_search(ctx, reuse, lambda r, a: ("panicked: " + a[6:120]) if a.startswith("panic") else None, "consumer-reuse")
+    ctx.oblige(f"oracle:consumer-reuse ({len(reuse)} requests, implementation only)", not found_reuse)
+    stats["consumer-reuse"] = len(reuse)
     kinds = {}
     for r, a in zip(reqs, impl):
         ch = r.split(" ")[0]
